@@ -1,9 +1,45 @@
 import CotengraVerif.Driver.Util
+import CotengraVerif.Model.HyperGraph
 
 namespace Cotengra.Driver.C20
 open Lean Cotengra Cotengra.Driver
 
-/-- ops of property C20 (name them "c20.<op>") -/
-def handlers : List (String × Handler) := []
+def jTracker (t : Tracker) : Json :=
+  jObj [("flops_contract", jNat (t.flops - t.qr)), ("max_size", jNat t.maxSize), ("peak_size", jInt t.peakSize),
+        ("write", jNat t.write), ("total_size", jInt t.totalSize),
+        ("contracted_size", jNat t.contractedSize)]
+
+def jHG (h : HG) : Json :=
+  jObj [("nodes", jArr (h.nodes.map fun (k, l) => Json.arr #[jNat k, jNats l])),
+        ("edges", jArr (h.edges.map fun (k, l) => Json.arr #[jNat k, jNats l])),
+        ("sizes", jPairs h.sizeDict)]
+
+/-- op `c20.stats`: `compressed_contract_stats(chi, order, compress_late)` replayed on the
+    traversal `path` (pairs of hypergraph node ids); reports the tracker and the hypergraph after
+    every step, and before each step `candidate_contraction_size(li, ri, chi)`. -/
+def stats : Handler := fun j => do
+  let n ← netOf (← field j "net")
+  let chi ← natOf (← field j "chi")
+  let late := match j.getObjVal? "late" with | .ok (.bool b) => b | _ => false
+  let path ← pairList (← field j "path")
+  let h0 := HG.ofInputs n.inputs n.output n.sizes
+  let t0 := Tracker.init h0 chi
+  let rec go (st : HG × Tracker) (p : List (Nat × Nat)) (acc : List Json) : List Json × Option (HG × Tracker) :=
+    match p with
+    | [] => (acc, some st)
+    | lr :: rest =>
+      let cand := st.1.candidateContractionSize lr.1 lr.2 (some chi)
+      match HG.statsStep chi late (some st) lr with
+      | none => (acc, none)
+      | some st' => go st' rest (acc ++ [jObj [("tracker", jTracker st'.2), ("hg", jHG st'.1),
+                                              ("candidate", jNat cand)]])
+  let (steps, fin) := go (h0, t0) path []
+  -- the same through the one-shot definition the theorems are about
+  let oneShot := HG.compressedStats n.inputs n.output n.sizes chi late path
+  pure (jObj [("init", jTracker t0), ("steps", jArr steps),
+              ("final", match fin with | some st => jTracker st.2 | none => Json.null),
+              ("one_shot", match oneShot with | some st => jTracker st.2 | none => Json.null)])
+
+def handlers : List (String × Handler) := [("c20.stats", stats)]
 
 end Cotengra.Driver.C20
